@@ -22,6 +22,11 @@ impl Controller for StaticResourceController {
             return false;
         }
 
+        // request uri is appended to the host below, it has to be a path
+        if !request.request_uri.starts_with(SYMBOL.slash) {
+            return false;
+        }
+
         let url_array = ["http://", "localhost", &request.request_uri];
         let url = url_array.join(SYMBOL.empty_string);
 
